@@ -25,7 +25,8 @@ CONSTANTS Ver,                      \* "v1" | "v2c" | "v3"
           MaxReq,                   \* requests per behaviour
           MaxInbox,                 \* datagrams queued at any time
           MaxInject,                \* injections per behaviour
-          DEV_NoIncomingMacCheck    \* pinned commit: msgAuthenticationParameters / msgFlags of replies ignored
+          DEV_NoIncomingMacCheck,   \* pinned commit: msgAuthenticationParameters / msgFlags of replies ignored
+          WithSecMutants            \* include the forged-security mutants (C10) in the alphabet
 
 NeverId == 99                       \* an id never issued by the session
 
@@ -60,8 +61,8 @@ PrivMutants(j) ==
     [Base(j) EXCEPT !.enc = "plain"] }              \* sent in clear although privacy is configured
 Mutants(j) == CommonMutants(j)
               \cup (IF Ver = "v3" THEN V3Mutants(j) ELSE {})
-              \cup (IF Ver = "v3" /\ HasAuth THEN AuthMutants(j) ELSE {})
-              \cup (IF Ver = "v3" /\ HasPriv THEN PrivMutants(j) ELSE {})
+              \cup (IF WithSecMutants /\ Ver = "v3" /\ HasAuth THEN AuthMutants(j) ELSE {})
+              \cup (IF WithSecMutants /\ Ver = "v3" /\ HasPriv THEN PrivMutants(j) ELSE {})
 Garbage == [kind |-> "garbage"]                     \* truncated / not BER / trailing octets
 Dgram == {Garbage} \cup UNION { Mutants(j) : j \in 1..MaxReq }
 
@@ -87,6 +88,7 @@ SendRequest ==
 
 Inject(d) ==
   /\ Len(inbox) < MaxInbox /\ ninj < MaxInject
+  /\ nsent >= 1                                        \* the client's ephemeral port is unknown before its first request
   /\ d.kind = "msg" => d.answers \in 1..nsent          \* only ids already seen on the wire
   /\ inbox' = Append(inbox, d) /\ ninj' = ninj + 1
   /\ UNCHANGED <<sess, pending, result, nsent>>
